@@ -34,7 +34,7 @@ func (c07) Describe() CheckInfo {
 		},
 		RealCode:       []string{"gopatch main()/mainCmd.Run, patch.Parse/File.Apply, go/format, x/tools/imports, pkg/diff, internal/*"},
 		Stubs:          []string{"package os (simulated filesystem, streams, exit)", "path/filepath walk", "io/ioutil"},
-		RequiredProbes: []string{"misfit-in-place", "misfit-print", "misfit-diff", "misfit-skip-import", "misfit-api", "misfit-refused", "cross-emission-checked", "emission-in-place", "emission-print", "emission-diff", "emission-api", "multi-file", "large-file-emission", "identical-twins", "line-directive-subject"},
+		RequiredProbes: []string{"misfit-in-place", "misfit-print", "misfit-diff", "misfit-skip-import", "misfit-api", "misfit-refused", "cross-emission-checked", "emission-in-place", "emission-print", "emission-diff", "emission-api", "multi-file", "large-file-emission", "identical-twins", "line-directive-subject", "same-change-fits-in-earlier-file"},
 	}
 }
 
@@ -85,6 +85,13 @@ func (c07) Gen(env *Env, seed uint64, tier string, i int) *Case {
 				c.AddFile(fmt.Sprintf("m_subject_twin%d.go", j), src, "misfit-twin", nil, m.Name)
 			}
 			c.Extra["twins"] = "1"
+		}
+		if r.Chance(1, 3) {
+			// the same change fits here (its metavariable is bound to a plain name):
+			// a valid rewrite earlier in the run must not vouch for the subject
+			fit := strings.NewReplacer("Node{}", "plainValue", "Node{Val: 1}", "plainValue").Replace(m.Stmt(k))
+			c.AddFile(r.Pick([]string{"a_fits.go", "b_fits.go"}), GenValidGoFile(r, GoFileOpts{Funcs: 1, Stmts: []string{fit}}), "match", nil, "fits")
+			c.Extra["fitting_neighbour"] = "1"
 		}
 		c.Extra["family"] = "misfit:" + m.Name
 	case "cross":
@@ -352,6 +359,9 @@ func (c07) Eval(env *Env, c *Case) []Violation {
 	}
 	if c.Extra["twins"] == "1" {
 		env.Probe("identical-twins")
+	}
+	if c.Extra["fitting_neighbour"] == "1" {
+		env.Probe("same-change-fits-in-earlier-file")
 	}
 	if c.Extra["line_directive"] == "1" {
 		env.Probe("line-directive-subject")
